@@ -113,3 +113,374 @@ Proof.
     specialize (IH _ Hx). specialize (Hd _ Hx). cbn [fst snd map] in *.
     apply andb_true_iff in Hd as [Hk Hv]. destruct IH as [IHk IHv]. rewrite (IHk Hk), (IHv Hv). reflexivity.
 Qed.
+
+(* ---------------------------------------------------------------------------------------------- *)
+(* 3. protoConsumer builds the message the calls denote, for every tree of calls whose hashes are even *)
+
+Lemma pc_seq_nil f stack : pc_seq f stack [] = Ok stack.
+Proof. reflexivity. Qed.
+Lemma pc_seq_cons f stack x l : pc_seq f stack (x :: l) = let* s1 := f stack x in pc_seq f s1 l.
+Proof. reflexivity. Qed.
+
+Definition P_pc (e : ev) : Prop :=
+  even_hashes e = true -> forall top rest, pc_ev (top :: rest) e = Ok ((top ++ [pb_of_ev e]) :: rest).
+
+Lemma pc_seq_spec l :
+  Forall P_pc l -> forallb even_hashes l = true ->
+  forall top rest, pc_seq pc_ev (top :: rest) l = Ok ((top ++ map pb_of_ev l) :: rest).
+Proof.
+  induction 1 as [|x l Hx _ IH]; intros He top rest.
+  - cbn [map]. rewrite app_nil_r. reflexivity.
+  - cbn [forallb] in He. apply andb_true_iff in He as [Hex Hel].
+    rewrite pc_seq_cons, (Hx Hex). cbn [bind]. rewrite (IH Hel). cbn [map]. rewrite <- app_assoc. reflexivity.
+Qed.
+
+(* lists of even length, two elements at a time *)
+Lemma even_list_ind {A} (P : list A -> Prop) :
+  P [] -> (forall k v r, Nat.even (length r) = true -> P r -> P (k :: v :: r)) ->
+  forall l, Nat.even (length l) = true -> P l.
+Proof.
+  intros H0 H2. fix IH 1. intros [|k [|v r]] He.
+  - exact H0.
+  - discriminate He.
+  - apply H2; [exact He|]. apply IH. exact He.
+Qed.
+
+Lemma pair_up_even {A} (l : list A) : Nat.even (length l) = true -> pair_up l = Ok (pairs l).
+Proof.
+  revert l. apply even_list_ind; [reflexivity|]. intros k v r _ IH.
+  cbn [pair_up pairs]. rewrite IH. reflexivity.
+Qed.
+
+Lemma pc_ev_spec : forall e, P_pc e.
+Proof.
+  induction e as [s|n|l IH|l IH] using ev_ind'; intros He top rest.
+  - reflexivity.
+  - reflexivity.
+  - cbn [even_hashes] in He. cbn [pc_ev pb_of_ev].
+    rewrite (pc_seq_spec l IH He). cbn [bind app]. reflexivity.
+  - cbn [even_hashes] in He. apply andb_true_iff in He as [Hlen He]. cbn [pc_ev pb_of_ev].
+    rewrite (pc_seq_spec l IH He). cbn [bind app].
+    rewrite pair_up_even by (rewrite map_length; exact Hlen). reflexivity.
+Qed.
+
+Theorem pc_run_spec e : even_hashes e = true -> pc_run e = Ok (pb_of_ev e).
+Proof. intros He. unfold pc_run. rewrite (pc_ev_spec e He). reflexivity. Qed.
+
+(* ... and ConsumePBData replays exactly those calls *)
+Definition P_consume (e : ev) : Prop := even_hashes e = true -> consume_pb (pb_of_ev e) = Ok (pb_image e).
+
+Lemma scalar_pb_consume s : consume_pb (scalar_pb s) = Ok (pb_image (EAdd s)).
+Proof. destruct s; reflexivity. Qed.
+
+Lemma consume_pairs : forall l, Nat.even (length l) = true ->
+  Forall P_consume l -> forallb even_hashes l = true ->
+  mapM_gen (fun kx => let* ke := consume_pb (fst kx) in let* xe := consume_pb (snd kx) in Ok (ke, xe))
+           (pairs (map pb_of_ev l)) = Ok (pairs (map pb_image l)).
+Proof.
+  apply (even_list_ind (fun l => Forall P_consume l -> forallb even_hashes l = true -> _ = Ok (pairs (map pb_image l)))).
+  - reflexivity.
+  - intros k v r _ IH HP He.
+    inversion HP as [|? ? Hk HP']; subst. inversion HP' as [|? ? Hv HP'']; subst.
+    cbn [forallb] in He. apply andb_true_iff in He as [Hek He]. apply andb_true_iff in He as [Hev He].
+    cbn [map pairs]. rewrite mapM_gen_cons. cbn [fst snd].
+    rewrite (Hk Hek), (Hv Hev). cbn [bind]. rewrite (IH HP'' He). reflexivity.
+Qed.
+
+Lemma flat_pairs_even {A} : forall l : list A, Nat.even (length l) = true ->
+  flat_map (fun p => [fst p; snd p]) (pairs l) = l.
+Proof.
+  apply even_list_ind; [reflexivity|]. intros k v r _ IH.
+  cbn [pairs flat_map fst snd app]. rewrite IH. reflexivity.
+Qed.
+
+Lemma consume_pb_of_ev : forall e, P_consume e.
+Proof.
+  induction e as [s|n|l IH|l IH] using ev_ind'; intros He.
+  - apply scalar_pb_consume.
+  - reflexivity.
+  - cbn [even_hashes] in He. cbn [pb_of_ev consume_pb pb_image].
+    rewrite (mapM_map_inv pb_of_ev consume_pb pb_image).
+    + reflexivity.
+    + rewrite Forall_forall in *. rewrite forallb_forall in He. intros x Hx. apply IH; auto.
+  - cbn [even_hashes] in He. apply andb_true_iff in He as [Hlen He].
+    cbn [pb_of_ev consume_pb pb_image].
+    rewrite (consume_pairs l Hlen IH He). cbn [bind].
+    rewrite flat_pairs_even by (rewrite map_length; exact Hlen). reflexivity.
+Qed.
+
+(* events -> protoConsumer -> message -> ConsumePBData -> the same events *)
+Theorem pb_stream_roundtrip e :
+  even_hashes e = true -> exists d, pc_run e = Ok d /\ consume_pb d = Ok (pb_image e).
+Proof.
+  intros He. exists (pb_of_ev e). split; [apply pc_run_spec; exact He | apply consume_pb_of_ev; exact He].
+Qed.
+
+(* nothing but a foreign scalar is changed *)
+Fixpoint no_other (e : ev) : bool :=
+  match e with
+  | EAdd SOther => false
+  | EArr l | EHash l => forallb no_other l
+  | _ => true
+  end.
+
+Lemma pb_image_no_other : forall e, no_other e = true -> pb_image e = e.
+Proof.
+  induction e as [s|n|l IH|l IH] using ev_ind'; cbn [no_other pb_image]; intros H.
+  - destruct s; try reflexivity. discriminate H.
+  - reflexivity.
+  - f_equal. apply map_id_Forall. rewrite Forall_forall in *. rewrite forallb_forall in H. intros x Hx. apply IH; auto.
+  - f_equal. apply map_id_Forall. rewrite Forall_forall in *. rewrite forallb_forall in H. intros x Hx. apply IH; auto.
+Qed.
+
+Theorem pb_stream_roundtrip_exact e :
+  even_hashes e = true -> no_other e = true -> exists d, pc_run e = Ok d /\ consume_pb d = Ok e.
+Proof.
+  intros He Hn. destruct (pb_stream_roundtrip e He) as (d & H1 & H2). exists d. split; [exact H1|].
+  rewrite H2, (pb_image_no_other e Hn). reflexivity.
+Qed.
+
+(* ---------------------------------------------------------------------------------------------- *)
+(* 4. the collector rebuilds the value a reference-free tree of calls denotes *)
+
+Lemma c_seq_cons f c x l : c_seq f c (x :: l) = let* c1 := f c x in c_seq f c1 l.
+Proof. reflexivity. Qed.
+
+Definition P_coll (e : ev) : Prop :=
+  ref_free e = true -> even_hashes e = true ->
+  forall vals top rest, exists vals',
+    c_ev (mkC vals (top :: rest)) e = Ok (mkC vals' ((top ++ [value_of_ev e]) :: rest)).
+
+Lemma c_seq_spec l :
+  Forall P_coll l -> forallb ref_free l = true -> forallb even_hashes l = true ->
+  forall vals top rest, exists vals',
+    c_seq c_ev (mkC vals (top :: rest)) l = Ok (mkC vals' ((top ++ map value_of_ev l) :: rest)).
+Proof.
+  induction 1 as [|x l Hx _ IH]; intros Hr He vals top rest.
+  - exists vals. cbn [map]. rewrite app_nil_r. reflexivity.
+  - cbn [forallb] in Hr, He. apply andb_true_iff in Hr as [Hrx Hrl]. apply andb_true_iff in He as [Hex Hel].
+    destruct (Hx Hrx Hex vals top rest) as (v1 & H1).
+    destruct (IH Hrl Hel v1 (top ++ [value_of_ev x]) rest) as (v2 & H2).
+    exists v2. rewrite c_seq_cons, H1. cbn [bind]. rewrite H2. cbn [map]. rewrite <- app_assoc. reflexivity.
+Qed.
+
+Lemma c_ev_spec : forall e, P_coll e.
+Proof.
+  induction e as [s|n|l IH|l IH] using ev_ind'; intros Hr He vals top rest.
+  - destruct s; eexists; cbn [c_ev cstack cvalues c_push bind value_of_ev value_of_scalar]; reflexivity.
+  - discriminate Hr.
+  - cbn [ref_free even_hashes] in Hr, He.
+    destruct (c_seq_spec l IH Hr He (vals ++ [None]) [] (top :: rest)) as (v1 & H1).
+    eexists. cbn [c_ev cstack cvalues]. rewrite H1. cbn [bind cstack cvalues c_push app value_of_ev]. reflexivity.
+  - cbn [ref_free even_hashes] in Hr, He. apply andb_true_iff in He as [Hlen He].
+    destruct (c_seq_spec l IH Hr He (vals ++ [None]) [] (top :: rest)) as (v1 & H1).
+    eexists. cbn [c_ev cstack cvalues]. rewrite H1. cbn [bind cstack cvalues app].
+    rewrite pair_up_even by (rewrite map_length; exact Hlen).
+    cbn [bind c_push value_of_ev]. reflexivity.
+Qed.
+
+Theorem collect_spec e : ref_free e = true -> even_hashes e = true -> collect e = Ok (value_of_ev e).
+Proof.
+  intros Hr He. unfold collect. destruct (c_ev_spec e Hr He [] [] []) as (v1 & H1).
+  rewrite H1. reflexivity.
+Qed.
+
+(* the events of a value: reference-free, even, and denoting that value *)
+Lemma forallb_flat_map {A B} (p : B -> bool) (g : A -> list B) (l : list A) :
+  forallb p (flat_map g l) = forallb (fun x => forallb p (g x)) l.
+Proof. induction l as [|x l IH]; [reflexivity|]. cbn [flat_map forallb]. rewrite forallb_app, IH. reflexivity. Qed.
+
+Lemma flat_pairs_length {A B} (f g : A -> B) (es : list (A * A)) :
+  Nat.even (length (flat_map (fun kv => [f (fst kv); g (snd kv)]) es)) = true.
+Proof. induction es as [|kv es IH]; [reflexivity|]. cbn [flat_map app length]. exact IH. Qed.
+
+Lemma events_of_ref_free : forall v, ref_free (events_of v) = true.
+Proof.
+  induction v as [ |b|z|f|s|l IH|es IH|b| ] using value_ind'; try reflexivity; cbn [events_of ref_free].
+  - rewrite forallb_forall. intros y Hy. apply in_map_iff in Hy as (x & <- & Hx). rewrite Forall_forall in IH. auto.
+  - rewrite forallb_flat_map, forallb_forall. intros kv Hkv. rewrite Forall_forall in IH.
+    destruct (IH _ Hkv) as [Hk Hx]. cbn [forallb]. rewrite Hk, Hx. reflexivity.
+Qed.
+
+Lemma events_of_even : forall v, even_hashes (events_of v) = true.
+Proof.
+  induction v as [ |b|z|f|s|l IH|es IH|b| ] using value_ind'; try reflexivity; cbn [events_of even_hashes].
+  - rewrite forallb_forall. intros y Hy. apply in_map_iff in Hy as (x & <- & Hx). rewrite Forall_forall in IH. auto.
+  - rewrite flat_pairs_length. cbn [andb].
+    rewrite forallb_flat_map, forallb_forall. intros kv Hkv. rewrite Forall_forall in IH.
+    destruct (IH _ Hkv) as [Hk Hx]. cbn [forallb]. rewrite Hk, Hx. reflexivity.
+Qed.
+
+Lemma pairs_map_flat (es : list (value * value)) :
+  Forall (fun kv => value_of_ev (events_of (fst kv)) = fst kv /\ value_of_ev (events_of (snd kv)) = snd kv) es ->
+  pairs (map value_of_ev (flat_map (fun kv => [events_of (fst kv); events_of (snd kv)]) es)) = es.
+Proof.
+  induction 1 as [|[k x] es [Hk Hx] _ IH]; [reflexivity|].
+  cbn [flat_map app map pairs fst snd] in *. rewrite Hk, Hx, IH. reflexivity.
+Qed.
+
+Lemma value_of_events : forall v, value_of_ev (events_of v) = v.
+Proof.
+  induction v as [ |b|z|f|s|l IH|es IH|b| ] using value_ind'; try reflexivity; cbn [events_of value_of_ev].
+  - f_equal. rewrite map_map. apply map_id_Forall. exact IH.
+  - f_equal. apply pairs_map_flat. exact IH.
+Qed.
+
+Theorem collect_events_of v : collect (events_of v) = Ok v.
+Proof. rewrite collect_spec by (apply events_of_ref_free || apply events_of_even). rewrite value_of_events. reflexivity. Qed.
+
+(* Data value -> ToPBData -> ConsumePBData -> BasicCollector -> the same value *)
+Theorem pb_data_roundtrip v :
+  is_data v = true -> exists e, consume_pb (to_pb v) = Ok e /\ collect e = Ok v.
+Proof.
+  intros Hd. exists (events_of v). split.
+  - rewrite consume_to_pb, (pb_image_data v Hd). reflexivity.
+  - apply collect_events_of.
+Qed.
+
+(* Data value -> its events -> protoConsumer -> FromPBData -> the same value *)
+Theorem pb_of_events v : pb_of_ev (events_of v) = to_pb v.
+Proof.
+  induction v as [ |b|z|f|s|l IH|es IH|b| ] using value_ind'; try reflexivity; cbn [events_of pb_of_ev to_pb].
+  - f_equal. rewrite map_map. apply map_ext_in. rewrite Forall_forall in IH. exact IH.
+  - f_equal. induction IH as [|[k x] es [Hk Hx] _ IHes]; [reflexivity|].
+    cbn [flat_map app map pairs fst snd] in *. rewrite Hk, Hx, IHes. reflexivity.
+Qed.
+
+Theorem pb_consumer_roundtrip v :
+  is_data v = true -> exists d, pc_run (events_of v) = Ok d /\ from_pb d = Ok v.
+Proof.
+  intros Hd. exists (to_pb v). split.
+  - rewrite pc_run_spec by apply events_of_even. rewrite pb_of_events. reflexivity.
+  - apply pb_roundtrip. exact Hd.
+Qed.
+
+(* ---------------------------------------------------------------------------------------------- *)
+(* 5. end to end over JSON: the calls a value denotes -> NewJsonStreamer -> JsonToData -> BasicCollector *)
+
+Theorem json_data_roundtrip v :
+  json_wf (events_of v) = true -> data_exact (events_of v) = true ->
+  exists toks, stream_top (events_of v) = Ok toks /\ json_valid toks = true /\
+               exists e', read toks = Ok [e'] /\ collect e' = Ok v.
+Proof.
+  intros Hwf Hex. destruct (json_events_roundtrip_exact _ Hwf Hex) as (toks & Hs & Hv & Hr).
+  exists toks. split; [exact Hs|]. split; [exact Hv|].
+  exists (events_of v). split; [exact Hr | apply collect_events_of].
+Qed.
+
+(* with back-references: the reader hands the collector the very calls the writer received, so whatever the
+   collector builds from them (references resolved) is what it builds on the far side *)
+Theorem json_collect_roundtrip e v :
+  json_wf e = true -> data_exact e = true -> collect e = Ok v ->
+  exists toks, stream_top e = Ok toks /\ exists e', read toks = Ok [e'] /\ collect e' = Ok v.
+Proof.
+  intros Hwf Hex Hc. destruct (json_events_roundtrip_exact _ Hwf Hex) as (toks & Hs & _ & Hr).
+  exists toks. split; [exact Hs|]. exists e. split; [exact Hr | exact Hc].
+Qed.
+
+(* ---------------------------------------------------------------------------------------------- *)
+(* 6. the collector commutes with the JSON image: for ANY well-formed event tree (references included, strings
+      not necessarily UTF-8) the value rebuilt on the far side is the image of the value built on the near side *)
+
+Definition cimg (c : cstate) : cstate :=
+  mkC (map (option_map vimage) (cvalues c)) (map (map vimage) (cstack c)).
+
+Lemma c_push_img v st :
+  c_push (vimage v) (map (map vimage) st) = res_map (map (map vimage)) (c_push v st).
+Proof. destruct st as [|top rest]; [reflexivity|]. cbn [map c_push res_map]. rewrite map_app. reflexivity. Qed.
+
+Lemma set_nth_map {A B} (f : A -> B) : forall n x l, set_nth n (f x) (map f l) = map f (set_nth n x l).
+Proof.
+  induction n as [|n IH]; intros x [|y l]; cbn [set_nth map]; try reflexivity. rewrite IH. reflexivity.
+Qed.
+
+Lemma pair_up_img : forall n (els : list value), (length els <= n)%nat ->
+  pair_up (map vimage els) = res_map (map (fun kv => (vimage (fst kv), vimage (snd kv)))) (pair_up els).
+Proof.
+  induction n as [|n IH]; intros els Hn.
+  - destruct els; [reflexivity|cbn [length] in Hn; lia].
+  - destruct els as [|k [|v r]]; [reflexivity|reflexivity|].
+    cbn [map pair_up]. rewrite IH by (cbn [length] in Hn; lia).
+    destruct (pair_up r); reflexivity.
+Qed.
+
+Definition P_comm (e : ev) : Prop := forall c, c_ev (cimg c) (json_image e) = res_map cimg (c_ev c e).
+
+Lemma c_seq_comm l :
+  Forall P_comm l -> forall c, c_seq c_ev (cimg c) (map json_image l) = res_map cimg (c_seq c_ev c l).
+Proof.
+  induction 1 as [|x l Hx _ IH]; intros c; [reflexivity|].
+  cbn [map]. rewrite !c_seq_cons, Hx. destruct (c_ev c x) as [c1| | |]; cbn [bind res_map]; try reflexivity.
+  apply IH.
+Qed.
+
+Lemma scalar_value_img s :
+  match scalar_image s with
+  | SUndef => VUndef | SBool b => VBool b | SInt z => VInt z | SFloat f => VFloat f
+  | SStr x => VStr x | SBin b => VBin b | SOther => VOther
+  end = vimage match s with
+               | SUndef => VUndef | SBool b => VBool b | SInt z => VInt z | SFloat f => VFloat f
+               | SStr x => VStr x | SBin b => VBin b | SOther => VOther
+               end.
+Proof. destruct s; reflexivity. Qed.
+
+Lemma c_ev_comm : forall e, P_comm e.
+Proof.
+  induction e as [s|n|l IH|l IH] using ev_ind'; intros c.
+  - cbn [json_image c_ev]. rewrite scalar_value_img.
+    cbn [cimg cstack cvalues]. rewrite c_push_img.
+    destruct (c_push _ (cstack c)) as [st| | |]; cbn [bind res_map]; try reflexivity.
+    unfold cimg. cbn [cvalues cstack]. rewrite map_app. reflexivity.
+  - cbn [json_image c_ev cimg cstack cvalues]. rewrite map_length.
+    destruct ((n <? 0) || (Z.of_nat (length (cvalues c)) <=? n)); [reflexivity|].
+    change (@None value) with (option_map vimage None) at 1. rewrite map_nth.
+    destruct (nth (Z.to_nat n) (cvalues c) None) as [v|]; cbn [option_map]; [|reflexivity].
+    rewrite c_push_img. destruct (c_push v (cstack c)); reflexivity.
+  - cbn [json_image c_ev]. cbn [cimg cstack cvalues]. rewrite map_length.
+    change (mkC (map (option_map vimage) (cvalues c) ++ [None]) ([] :: map (map vimage) (cstack c)))
+      with (mkC (map (option_map vimage) (cvalues c) ++ map (option_map vimage) [None]) (map (map vimage) ([] :: cstack c))).
+    rewrite <- map_app.
+    change (mkC (map (option_map vimage) (cvalues c ++ [None])) (map (map vimage) ([] :: cstack c)))
+      with (cimg (mkC (cvalues c ++ [None]) ([] :: cstack c))).
+    rewrite (c_seq_comm l IH).
+    destruct (c_seq c_ev _ l) as [c1| | |]; cbn [bind res_map]; try reflexivity.
+    cbn [cimg cstack cvalues]. destruct (cstack c1) as [|els rest]; cbn [map]; [reflexivity|].
+    change (VArr (map vimage els)) with (vimage (VArr els)).
+    rewrite c_push_img. destruct (c_push (VArr els) rest); cbn [bind res_map]; [|reflexivity..].
+    unfold cimg. cbn [cvalues cstack].
+    change (Some (vimage (VArr els))) with (option_map vimage (Some (VArr els))).
+    rewrite set_nth_map. reflexivity.
+  - cbn [json_image c_ev]. cbn [cimg cstack cvalues]. rewrite map_length.
+    change (mkC (map (option_map vimage) (cvalues c) ++ [None]) ([] :: map (map vimage) (cstack c)))
+      with (mkC (map (option_map vimage) (cvalues c) ++ map (option_map vimage) [None]) (map (map vimage) ([] :: cstack c))).
+    rewrite <- map_app.
+    change (mkC (map (option_map vimage) (cvalues c ++ [None])) (map (map vimage) ([] :: cstack c)))
+      with (cimg (mkC (cvalues c ++ [None]) ([] :: cstack c))).
+    rewrite (c_seq_comm l IH).
+    destruct (c_seq c_ev _ l) as [c1| | |]; cbn [bind res_map]; try reflexivity.
+    cbn [cimg cstack cvalues]. destruct (cstack c1) as [|els rest]; cbn [map]; [reflexivity|].
+    rewrite (pair_up_img (length els) els (le_n _)).
+    destruct (pair_up els) as [ps| | |]; cbn [bind res_map]; try reflexivity.
+    change (VHash (map (fun kv => (vimage (fst kv), vimage (snd kv))) ps)) with (vimage (VHash ps)).
+    rewrite c_push_img. destruct (c_push (VHash ps) rest); cbn [bind res_map]; [|reflexivity..].
+    unfold cimg. cbn [cvalues cstack].
+    change (Some (vimage (VHash ps))) with (option_map vimage (Some (VHash ps))).
+    rewrite set_nth_map. reflexivity.
+Qed.
+
+Theorem collect_json_image e : collect (json_image e) = res_map vimage (collect e).
+Proof.
+  unfold collect. change (mkC [] [[]]) with (cimg (mkC [] [[]])) at 1.
+  rewrite c_ev_comm. destruct (c_ev (mkC [] [[]]) e) as [c| | |]; cbn [bind res_map]; try reflexivity.
+  cbn [cimg cstack]. destruct (cstack c) as [|[|v t] [|s r]]; reflexivity.
+Qed.
+
+(* any well-formed tree (guard: no first key __pref): written, read back and collected = the image of what the
+   near side collects, whatever it is (a value, or the same fault on a dangling reference) *)
+Theorem json_collect_image e :
+  json_wf e = true ->
+  exists toks, stream_top e = Ok toks /\ exists e', read toks = Ok [e'] /\ collect e' = res_map vimage (collect e).
+Proof.
+  intros Hwf. destruct (json_events_roundtrip e Hwf) as (toks & Hs & Hr).
+  exists toks. split; [exact Hs|]. exists (json_image e). split; [exact Hr | apply collect_json_image].
+Qed.
